@@ -360,8 +360,8 @@ def run_property(pid, tier="quick", seed=0, jobs=None, level="proof", replay=Non
             if rep is not None and rep.status == "proved":
                 res.errors.append(f"UNSOUND-ENGINE? {key}: all obligations discharged but CPython finds a counterexample {info}")
                 continue
-            payload = dict(property=pid, obligation=f"{pid}/{key}#bounded.{info.get('failed')}", function=key, concrete_call=info,
-                           verdict="reproduced", how_found="bounded stand-in", failed_clause=info.get("clause"))
+            payload = dict(property=pid, obligation=f"{pid}/{key}#bounded.{info.get('failed')}", function=key, concrete_call=info, tier=tier, seed=seed,
+                           verdict="reproduced", how_found="bounded stand-in", failed_clause=info.get("clause"), how_to_rerun=f"./check {pid} --replay <this file>")
             path = write_replay(pid, key, str(info.get("failed")), payload)
             res.violations.append(dict(function=key, obligation=payload["obligation"], replay=path, reproduced=True, info=info))
     if tier == "thorough":
@@ -447,13 +447,60 @@ def write_evidence(res: Result, propmods, level):
         json.dump(ev, f, indent=1, default=str)
 
 
+def _replay_by_reevaluation(pid, payload):
+    mods = {n: m for n, m in load_modules().items() if n.split(".")[-1].startswith(pid + "_")}
+    name = payload.get("obligation", "")
+    print(json.dumps({k: v for k, v in payload.items() if k != "solver_output"}, indent=1, default=str)[:2500])
+    if "#bounded." in name:
+        kind = name.split("#bounded.", 1)[1]
+        tier, seed = payload.get("tier", "quick"), int(payload.get("seed", 0))
+        for m in mods.values():
+            for f in getattr(m, "STANDINS", []):
+                try:
+                    r = f(tier, seed)
+                except Exception as ex:
+                    print(f"replay: stand-in {f.__name__} crashed: {ex!r}")
+                    continue
+                if r.get("function") != payload.get("function"):
+                    continue
+                hits = [x for x in r.get("_fails", []) if x.get("failed") == kind]
+                if hits:
+                    print("replay: REPRODUCED by re-running the bounded stand-in", f.__name__, json.dumps(hits[0], default=str)[:1200])
+                    return 1
+                print(f"replay: stand-in {f.__name__} re-run ({r.get('cases')} cases): no failure of kind {kind!r} on the current tree")
+                return 0
+        print("replay: stand-in not found")
+        return 1
+    for m in mods.values():
+        for chk in getattr(m, "ENGINE_CHECKS", []):
+            try:
+                reps = chk()
+            except Exception as ex:
+                print(f"replay: engine check crashed: {ex!r}")
+                continue
+            for rep in reps:
+                for o in rep.obligations:
+                    if o.name == name:
+                        if o.status == "proved":
+                            print("replay: the obligation is discharged on the current tree (not reproduced)")
+                            return 0
+                        print(f"replay: REPRODUCED - obligation {o.status} on the current tree: {o.detail[:800]}")
+                        return 1
+    print("replay: obligation not found among the engine checks of this property")
+    return 1
+
+
 def replay_file(pid, path):
     payload = json.load(open(path))
     key = payload["function"]
     load_modules()
     c = api.REGISTRY.get(key)
     call = payload.get("concrete_call")
-    if c is None or not call:
+    if c is None:
+        # engine obligations and bounded stand-ins have no single-function native form: replay = re-evaluate the named obligation
+        # (or re-run the stand-in) on the current tree
+        return _replay_by_reevaluation(pid, payload)
+    if not call:
         print(json.dumps(payload, indent=1)[:3000])
         print("replay: no concrete call recorded (no-failing-input-found); the obligation and solver output are above")
         return 1
